@@ -161,13 +161,13 @@ func (s *hashSet) add(h uint64) {
 }
 
 type ExploreStat struct {
-	Name        string         `json:"name"`
-	Executions  int64          `json:"executions"`
-	States      int64          `json:"states"`
-	Transitions int64          `json:"transitions"`
-	MaxDepth    int            `json:"max_depth"`
-	Budgets     map[string]int `json:"deviation_budgets,omitempty"`
-	Complete    bool           `json:"complete"`
+	Name        string           `json:"name"`
+	Executions  int64            `json:"executions"`
+	States      int64            `json:"states"`
+	Transitions int64            `json:"transitions"`
+	MaxDepth    int              `json:"max_depth"`
+	Budgets     map[string]int   `json:"deviation_budgets,omitempty"`
+	Complete    bool             `json:"complete"`
 	Classes     map[string]int64 `json:"choice_points_by_class,omitempty"`
 }
 
@@ -184,21 +184,21 @@ type Worker struct {
 	OutFile  string
 	Replay   *Violation
 
-	Executions int64
-	States     int64
+	Executions  int64
+	States      int64
 	Transitions int64
-	MaxDepth   int
-	Audits     int64
-	obsSet     *hashSet
-	caseSet    *hashSet
-	nontrivSet *hashSet
-	Samples    []interface{}
-	Violations []Violation
-	ViolCount  map[string]int64
-	Notes      map[string]int64
-	Explores   []ExploreStat
-	TimedOut   bool
-	Info       map[string]interface{}
+	MaxDepth    int
+	Audits      int64
+	obsSet      *hashSet
+	caseSet     *hashSet
+	nontrivSet  *hashSet
+	Samples     []interface{}
+	Violations  []Violation
+	ViolCount   map[string]int64
+	Notes       map[string]int64
+	Explores    []ExploreStat
+	TimedOut    bool
+	Info        map[string]interface{}
 	sampleEvery int64
 }
 
@@ -446,7 +446,7 @@ func (w *Worker) finish(start time.Time) {
 	fr := Fragment{Prop: w.Prop, Shard: w.Shard, Executions: w.Executions, States: w.States, Transitions: w.Transitions,
 		MaxDepth: w.MaxDepth, Audits: w.Audits, Obs: setToSlice(w.obsSet), Cases: setToSlice(w.caseSet), Nontriv: setToSlice(w.nontrivSet),
 		SetsCapped: w.obsSet.capped || w.caseSet.capped || w.nontrivSet.capped,
-		Samples: w.Samples, Violations: w.Violations, ViolCount: w.ViolCount, Notes: w.Notes, Explores: w.Explores,
+		Samples:    w.Samples, Violations: w.Violations, ViolCount: w.ViolCount, Notes: w.Notes, Explores: w.Explores,
 		TimedOut: w.TimedOut, Info: w.Info, WallS: time.Since(start).Seconds()}
 	b, err := json.Marshal(fr)
 	if err != nil {
@@ -470,8 +470,8 @@ type watchMsg struct {
 	on   bool
 }
 
-func (w *Worker) watch(desc string)  { watchCh <- watchMsg{desc, true} }
-func (w *Worker) unwatch()           { watchCh <- watchMsg{"", false} }
+func (w *Worker) watch(desc string) { watchCh <- watchMsg{desc, true} }
+func (w *Worker) unwatch()          { watchCh <- watchMsg{"", false} }
 
 func (w *Worker) startWatchdog(limit time.Duration) {
 	go func() {
